@@ -241,9 +241,9 @@ def discharge(obls, timeout=None, retry=True, use_cvc5=True, progress=None):
     timeout = timeout or DEFAULT_TIMEOUT
     _OBLS = obls
     ctx = mp.get_context("fork")
-    pending = list(range(len(obls)))
+    pending = [i for i in range(len(obls)) if not getattr(obls[i], "presolved", False)]
     running = {}
-    attempt = {i: 0 for i in pending}
+    attempt = {i: 0 for i in range(len(obls))}
 
     def launch(i):
         parent, child = ctx.Pipe(duplex=False)
